@@ -99,6 +99,27 @@ theorem finalize_prompt_init (it cs asc rp : Bool) (f : Flt) (w : World) (hadm :
   obtain ⟨v, f', r'⟩ := r
   cases r' <;> exact ‹Post _ _ _›
 
+/-- `finalize_prompt_str`: `str(renderable)` — in every state, under every fault of its single
+    `_render_` call (any exception) or none: when `__str__` returns or raises, before any garbage
+    collection, the render data it obtained has been finalized exactly once, by library code, not by
+    `__del__`, and was not used afterwards. -/
+theorem finalize_prompt_str (f : Flt) (w : World) (hadm : Admissible inj f) :
+    Prompt w.nObjs (run sem strP f w).1 := by
+  have hwp : wp sem inj strP f.isSome (fun _ v => Prompt w.nObjs v) (fun _ _ v => Prompt w.nObjs v) w := by
+    unfold strP initRender
+    simp only [Generated.initRenderIterationDefault, Generated.initRenderFinalizeDefault,
+      Generated.initRenderCheckSizeDefault, Generated.initRenderAllowScrollDefault]
+    wpgo
+    all_goals constructor <;> simp [finalizeW, apply]
+  have := wp_sound sem inj _ f _ _ w hadm hwp
+  generalize run sem strP f w = r at this
+  obtain ⟨v, f', r'⟩ := r
+  cases r' <;> exact this
+
+/-- the same for `render()` -/
+theorem finalize_prompt_render (f : Flt) (w : World) (hadm : Admissible inj f) :
+    Prompt w.nObjs (run sem renderP f w).1 := finalize_prompt_str f w hadm
+
 /-- `finalize_prompt_draw`: after every history, `draw()` with any arguments under any fault in a
     `_render_` call (any frame, any exception incl. StopIteration / KeyboardInterrupt) or in a write of the
     drawing proper, or none: at the moment `draw()` returns or raises — before any garbage collection —
@@ -196,21 +217,22 @@ theorem closed_control_raises (i n : Nat) (g : Ctl → Ctl) (f : Flt) (w : World
   simp [run, seekP, ctlP, hc]
 
 /-- `closed_after_end` (3): `close()` and dropping the iterator close it -/
-theorem closed_after_close (i : Nat) (f : Flt) (w : World) :
+theorem closed_after_close (i : Nat) (f : Flt) (w : World) (hf : Admissible inj f) :
     ((run sem (closeP i) f w).1.iters i).closed = true ∧ (run sem (closeP i) f w).2.2 = none := by
-  have := wp_sound sem (fun _ _ => True) (closeP i) f
-    (fun _ w' => (w'.iters i).closed = true) (fun _ _ _ => False) w (by cases f <;> simp [Admissible])
-    ((wp_closeP _ i _ _ _ w).2 (closeW_closed w i))
+  have := wp_sound sem inj (closeP i) f
+    (fun _ w' => (w'.iters i).closed = true) (fun _ _ _ => False) w hf
+    ((wp_closeP _ noHook_inj i _ _ _ w).2 (closeW_closed w i))
   generalize run sem (closeP i) f w = r at this
   obtain ⟨w', f', r'⟩ := r
   cases r' <;> simp_all [Post]
 
 /-- after a `KeyboardInterrupt` out of `_render_` the generator is finished but the iterator is still
     open (it keeps its data alive); the next `next()` then closes it and stops. -/
-theorem finished_next_closes (i : Nat) (f : Flt) (w : World) (hi : (w.iters i).hasIterator = true)
+theorem finished_next_closes (i : Nat) (f : Flt) (w : World) (hf : Admissible inj f)
+    (hi : (w.iters i).hasIterator = true)
     (hg : (w.iters i).ctl.gen = .finished) :
     run sem (nextP i) f w = ((run sem (closeP i) f w).1, (run sem (closeP i) f w).2.1, some .stopIteration) := by
-  have hc : (run sem (closeP i) f w).2.2 = none := (closed_after_close i f w).2
+  have hc : (run sem (closeP i) f w).2.2 = none := (closed_after_close i f w hf).2
   simp only [nextP, genNext, run, hi, hg, Bool.not_true, Bool.false_eq_true, if_false, if_true, Exc.isException]
   generalize run sem (closeP i) f w = r at hc
   obtain ⟨w', f', r'⟩ := r
@@ -245,17 +267,17 @@ theorem close_idem (i : Nat) (w : World) : closeW i (closeW i w) = closeW i w :=
   generalize closeW i w = w1 at this ⊢
   simp [closeW, this]
 
-theorem close_idem_run (i : Nat) (f f' : Flt) (w : World) :
+theorem close_idem_run (i : Nat) (f f' : Flt) (w : World) (hf : Admissible inj f) (hf' : Admissible inj f') :
     (run sem (closeP i) f' (run sem (closeP i) f w).1).1 = (run sem (closeP i) f w).1 := by
-  have key : ∀ f w, (run sem (closeP i) f w).1 = closeW i w := by
-    intro f w
-    have := wp_sound sem (fun _ _ => True) (closeP i) f
-      (fun _ w' => w' = closeW i w) (fun _ _ _ => False) w (by cases f <;> simp [Admissible])
-      ((wp_closeP _ i _ _ _ w).2 rfl)
+  have key : ∀ f w, Admissible inj f → (run sem (closeP i) f w).1 = closeW i w := by
+    intro f w hf
+    have := wp_sound sem inj (closeP i) f
+      (fun _ w' => w' = closeW i w) (fun _ _ _ => False) w hf
+      ((wp_closeP _ noHook_inj i _ _ _ w).2 rfl)
     generalize run sem (closeP i) f w = r at this
     obtain ⟨w', f', r'⟩ := r
     cases r' <;> simp_all [Post]
-  rw [key, key, close_idem]
+  rw [key _ _ hf', key _ _ hf, close_idem]
 
 /-- `finalize_idem`: a second `finalize()` does nothing (in particular calls
     `_finalize_render_data_` no second time) -/
@@ -266,17 +288,53 @@ theorem finalize_idem (d : Nat) (b b' : By) (w : World) : finalizeW d b' (finali
     generalize finalizeW d b w = w1 at this ⊢
     simp [finalizeW, this]
 
+/-- whatever the fault plan — including a `_finalize_render_data_` that raises — one `finalize()` call
+    leaves exactly the world of the summary `finalizeW`: the hook has run (at most) once and the flag
+    is set in the `finally` -/
+theorem run_finalizeP_world (d : Nat) (b : By) (f : Flt) (w : World) :
+    (run sem (finalizeP d b) f w).1 = finalizeW d b w := by
+  unfold finalizeP finalizeW
+  by_cases h : (w.objs d).finalized = true
+  · simp [run, h]
+  · cases f with
+    | none => simp [run, h, Prog.do, target]
+    | some tne =>
+      obtain ⟨t, n, e⟩ := tne
+      cases t <;> cases n <;> simp [run, h, Prog.do, target]
+
 theorem finalize_idem_run (d : Nat) (b b' : By) (f f' : Flt) (w : World) :
     (run sem (finalizeP d b') f' (run sem (finalizeP d b) f w).1).1 = (run sem (finalizeP d b) f w).1 := by
-  have key : ∀ b f w, (run sem (finalizeP d b) f w).1 = finalizeW d b w := by
-    intro b f w
-    have := wp_sound sem (fun _ _ => True) (finalizeP d b) f
-      (fun _ w' => w' = finalizeW d b w) (fun _ _ _ => False) w (by cases f <;> simp [Admissible])
-      ((wp_finalizeP _ d b _ _ _ w).2 rfl)
-    generalize run sem (finalizeP d b) f w = r at this
-    obtain ⟨w', f', r'⟩ := r
-    cases r' <;> simp_all [Post]
-  rw [key, key, finalize_idem]
+  rw [run_finalizeP_world, run_finalizeP_world, finalize_idem]
+
+/-- a sequence of `finalize()` calls on one object, each under its own fault plan (any of them may make
+    the hook raise) -/
+def runFins (d : Nat) : World → List (By × Flt) → World
+  | w, [] => w
+  | w, (b, f) :: cs => runFins d (run sem (finalizeP d b) f w).1 cs
+
+/-- `finalize_once_even_if_raises`: for every non-empty sequence of `finalize()` calls on an object,
+    from whichever holder (library, caller, `__del__`), with any pattern of raising
+    `_finalize_render_data_` hooks (or any other fault plan): the hook runs exactly once — in the first
+    call, even if it raises there — and `finalized` is true from the first call on. -/
+theorem finalize_once_even_if_raises (d : Nat) (w : World) (hw : (w.objs d).finalized = false)
+    (c : By × Flt) (cs : List (By × Flt)) :
+    ((runFins d w (c :: cs)).objs d).finCalls = (w.objs d).finCalls + 1 ∧
+    ((runFins d w (c :: cs)).objs d).finalized = true ∧
+    ((run sem (finalizeP d c.1) c.2 w).1.objs d).finalized = true := by
+  have h1 : ∀ (cs : List (By × Flt)) (v : World), (v.objs d).finalized = true → runFins d v cs = v := by
+    intro cs
+    induction cs with
+    | nil => intro v _; rfl
+    | cons c cs ih =>
+      intro v hv
+      obtain ⟨b, f⟩ := c
+      have : (run sem (finalizeP d b) f v).1 = v := by rw [run_finalizeP_world]; simp [finalizeW, hv]
+      simp only [runFins, this]; exact ih v hv
+  obtain ⟨b, f⟩ := c
+  have hfin : ((finalizeW d b w).objs d).finalized = true := by simp [finalizeW, hw, apply]
+  simp only [runFins, run_finalizeP_world]
+  rw [h1 cs _ hfin]
+  refine ⟨by simp [finalizeW, hw, apply], hfin, hfin⟩
 
 /-! ## the translator's constants are the ones the model was written for -/
 
